@@ -1059,6 +1059,8 @@ func c08Terminators(w *World, r *Report) {
 func c01ScanStart(w *World, r *Report) {
 	as := w.Method("filesystem/fat12", "FileSystem", "allocateSpace")
 	var hintFields []*types.Var
+	var otherStart []string
+	constScans := 0
 	n := 0
 	// the scan may live in a phase helper of the allocator
 	scope := w.reachableFrom([]*ssa.Function{as}, func(f *ssa.Function) bool { return inFatPkg(w, f) })
@@ -1084,12 +1086,27 @@ func c01ScanStart(w *World, r *Report) {
 			if ph.Block().Dominates(ph.Block().Preds[k]) {
 				continue
 			}
+			allConst := true
 			for _, rt := range w.prov(e, provOpts{phiControl: false}).Roots {
 				if rt.Kind == RField && rt.Owner != nil && rt.Owner.Obj().Name() == "FileSystem" {
 					hintFields = append(hintFields, rt.Field)
+					allConst = false
+				} else if rt.Kind != RConst {
+					allConst = false
+					otherStart = append(otherStart, rt.String()+" at "+w.relFile(instrPos(c)))
 				}
 			}
+			if allConst {
+				constScans++
+			}
 		}
+	}
+	// a scan that starts somewhere else (after the chain being extended, at a caller-supplied position) never sees the
+	// clusters below that point, unless a second scan covers them from a constant start (wrap-around)
+	if len(otherStart) > 0 && constScans == 0 {
+		r.Fail("C01-d", fnName(as), "free-cluster scan start does not depend on mutable state", w.relFile(as.Pos()),
+			"the allocator's free-cluster scan starts at a value that is neither a constant nor a rewound hint ("+strings.Join(uniq(otherStart), "; ")+") and no other scan starts at a constant: clusters released below that point are never found again, and a write fails with no space while clusters are free")
+		return
 	}
 	if n == 0 {
 		r.Undecided("C01-d", fnName(as), "free-cluster scan start", w.relFile(as.Pos()), "no scan over ClusterValue(i) found in allocateSpace or its helpers: the allocator has a shape this analysis does not recognise")
